@@ -473,7 +473,7 @@ func classOf(s *site, x, y string) string {
 	if isIfaceCtx(s.Ctx) && s.resultKind().Under != "" {
 		return "defined-type-dynamic-type"
 	}
-	// (F02-4 `x / 0.0` and F02-14 `var e interface{} = (-4) << b` are repaired, 03fb34b and 4adaaf3: no class any more)
+	// (F02-4 `x / 0.0` and F02-14 `var e interface{} = (-4) << b` are repaired, 03fb34b and 48cb9d4: no class any more)
 	// F02-9, what is left of it: an UNTYPED integer constant outside the int32 range is truncated to its low 32 bits
 	if s.Op == "conv" && s.K2 == "string" && s.Form == "c" && s.CKind != "typed" && s.kind().isInt() {
 		if v, ok := new(big.Int).SetString(s.CL, 10); ok && (v.Cmp(big.NewInt(math.MinInt32)) < 0 || v.Cmp(big.NewInt(math.MaxInt32)) > 0) {
